@@ -172,6 +172,8 @@ func runC13(c *Ctx) {
 		c.Dominated(r4, "Reconfigure: a second concurrent request is refused", storesToField(fn, pendF, func(v ssa.Value) bool { return !kit.IsNilConst(v) }), gFree, "the n.pending == nil edge")
 	}
 
+	c13R11(c)
+
 	r5 := c.R.Rule("R5", "K2 running flag untouched by the reconfigure helpers", 2)
 	runningF := c.Field(r5, pProc, "Instance", "running")
 	for _, m := range []string{"(*RunnableProcessor).TeardownForReconfigure", "(*Service).MakeRunnableProcessorForReconfigure"} {
@@ -468,6 +470,7 @@ func runC16(c *Ctx) {
 	c.guardTable(r7, guardEntry{Rel: pProv, Struct: "pipelineLocks", Mutex: "mu", Fields: []string{"locks"}, Min: 2})
 	c16R10(c)
 	c16R11(c)
+	c16R12(c)
 	r1 := c.R.Rule("R1", "K3/K4 lock, re-plan, hash: the per-pipeline lock is taken (deferred unlock) before the re-plan; every mutating call is dominated by Plan[ok] and the hash-equal edge", 14)
 	r2 := c.R.Rule("R2", "K3 authorisation: a running pipeline is touched only on the allowRestartOnRunning edge; ApplyPlan refuses a running pipeline", 5)
 	r4 := c.R.Rule("R4", "K3 drain before mutate: StopAndWait[ok] → transactionalImport[ok] → Start; provisioning never calls the non-draining Stop", 4)
@@ -811,7 +814,7 @@ func c16R11(c *Ctx) {
 						// len(S) - 1 with S the indexed slice
 						if lc, ok := sp.Hi.Base.(*ssa.Call); ok {
 							if bi, ok := lc.Call.Value.(*ssa.Builtin); ok && bi.Name() == "len" && sameSlice(lc.Call.Args[0], cSlice) {
-								hiOK = appendedOnSuccess(fn, cSlice, o)
+								hiOK = openedPrefix(cSlice, o, oSlice, oIdx)
 							}
 						}
 						// i - 1 with i the index of the opening loop over the same slice
@@ -824,6 +827,43 @@ func c16R11(c *Ctx) {
 					cov = loOK && hiOK
 				}
 				c.R.Check(cov, r, "v2 runPipeline: opened workers are closed by a covering loop", c.Pos(cl.Pos()), "[0, n-1]", why, true)
+			}
+			if !found {
+				// a same-package helper that closes every element of the slice it is handed
+				for _, b := range fn.Blocks {
+					if !(b == e.To || e.To.Dominates(b)) {
+						continue
+					}
+					for _, in := range b.Instrs {
+						call, ok := in.(*ssa.Call)
+						if !ok {
+							continue
+						}
+						h := call.Call.StaticCallee()
+						if h == nil || h.Pkg != fn.Pkg || len(h.Blocks) == 0 {
+							continue
+						}
+						for _, cl := range kit.CallsTo(h, Set(wClose)) {
+							hs, hi := elemOf(cl.Common().Args[0])
+							prm, isPrm := hs.(*ssa.Parameter)
+							if !isPrm {
+								continue
+							}
+							sp, okSp := kit.IndexSpan(hi)
+							covers := okSp && sp.Lo.Base == nil && sp.Lo.Off == 0 && sp.Hi.Off == -1
+							if covers {
+								lc, isLen := sp.Hi.Base.(*ssa.Call)
+								covers = isLen && len(lc.Call.Args) == 1 && lc.Call.Args[0] == ssa.Value(prm)
+							}
+							for i, hp := range h.Params {
+								if hp == prm && i < len(call.Call.Args) {
+									found = true
+									c.R.Check(covers && openedPrefix(call.Call.Args[i], o, oSlice, oIdx), r, "v2 runPipeline: opened workers are closed by a covering loop", c.Pos(call.Pos()), "helper closes [0, len-1] of the opened prefix", "the helper that closes the workers opened so far does not cover all of them, or is not handed the opened prefix", true)
+								}
+							}
+						}
+					}
+				}
 			}
 			c.R.Check(found, r, "v2 runPipeline: a failed Worker.Open closes the workers opened before", c.Pos(o.Pos()), "Worker.Close", "no Worker.Close behind the Worker.Open failure edge: workers opened before the failing one stay open", true)
 		}
@@ -854,6 +894,18 @@ func sameSlice(a, b ssa.Value) bool {
 	return pa != "" && pa == pb && kit.FieldOf(a) != nil
 }
 
+// openedPrefix: s holds exactly the workers opened so far — a local slice that is appended to on Open's success
+// path, or the prefix workers[:i] of the slice the opening loop ranges over (i its index).
+func openedPrefix(s ssa.Value, open ssa.CallInstruction, oSlice, oIdx ssa.Value) bool {
+	if appendedOnSuccess(open.Parent(), s, open) {
+		return true
+	}
+	if sl, ok := s.(*ssa.Slice); ok && oIdx != nil && sl.High == oIdx && (sl.Low == nil || kit.IsIntConst(sl.Low, 0)) && sameSlice(sl.X, oSlice) {
+		return true
+	}
+	return false
+}
+
 // appendedOnSuccess: s is a local slice (a loop phi) that receives the opened worker by append on the path that
 // continues the opening loop.
 func appendedOnSuccess(fn *ssa.Function, s ssa.Value, open ssa.CallInstruction) bool {
@@ -877,4 +929,111 @@ func appendedOnSuccess(fn *ssa.Function, s ssa.Value, open ssa.CallInstruction) 
 		}
 	}
 	return false
+}
+
+// c13R11: F31. A staged swap is applied only by the node's Run goroutine. Once Run has returned (the run failed and
+// sits in its recovery back-off, or it is ending) nobody will ever apply it: a deferred function of Run marks the
+// node stopped under swapMu and answers a request that is still pending, and Reconfigure refuses to stage a request
+// on a stopped node — otherwise applyInPlace (which calls with a context that cannot be cancelled) waits for ever
+// with the per-pipeline apply lock held and the new configuration already committed.
+func c13R11(c *Ctx) {
+	r := c.R.Rule("R11", "K4/K3 a staged swap is always answered: a deferred function of ProcessorNode.Run sets a stopped flag under swapMu and answers the pending request; Reconfigure stages a request only behind the !stopped edge (read under swapMu)", 4)
+	run := c.SSA(r, pStream, "(*ProcessorNode).Run")
+	rec := c.SSA(r, pStream, "(*ProcessorNode).Reconfigure")
+	pendF := c.Field(r, pStream, "ProcessorNode", "pending")
+	doneF := c.Field(r, pStream, "pendingSwap", "done")
+	T := c.W.LookupType(pStream, "ProcessorNode")
+	if run == nil || rec == nil || pendF == nil || doneF == nil || T == nil {
+		return
+	}
+	// the flag: a bool field of ProcessorNode stored true in a deferred closure of Run
+	var flag *types.Var
+	var closure *ssa.Function
+	st := T.Underlying().(*types.Struct)
+	for _, b := range run.Blocks {
+		for _, in := range b.Instrs {
+			d, ok := in.(*ssa.Defer)
+			if !ok {
+				continue
+			}
+			cl := closureOf(d)
+			if cl == nil {
+				continue
+			}
+			for i := 0; i < st.NumFields(); i++ {
+				f := st.Field(i)
+				if b, ok := f.Type().Underlying().(*types.Basic); !ok || b.Kind() != types.Bool {
+					continue
+				}
+				for _, s2 := range kit.FieldStores(cl, f) {
+					if kit.IsBoolConst(s2.Val, true) {
+						flag, closure = f, cl
+					}
+				}
+			}
+		}
+	}
+	if flag == nil {
+		c.R.Fail(r, "ProcessorNode.Run: marks the node stopped on exit", c.Pos(run.Pos()), "no deferred function of ProcessorNode.Run sets a stopped flag: a Reconfigure issued after Run returned (the pipeline is Recovering — provisioning counts that as running — or the run is ending) stages its request and waits for a goroutine that no longer exists; applyInPlace calls it with context.WithoutCancel, so the apply never returns, keeps the per-pipeline lock, and has already committed the new configuration")
+		return
+	}
+	c.R.Pass(r, "ProcessorNode.Run: marks the node stopped on exit", c.Pos(closure.Pos()), "n."+flag.Name()+" = true in a deferred function", true)
+	// under swapMu in both functions
+	c.Guarded(r, closure, nil, "swapMu", []*types.Var{flag, pendF}, nil)
+	c.Guarded(r, rec, nil, "swapMu", []*types.Var{flag}, nil)
+	// the deferred function answers a pending request
+	answered := false
+	for _, b := range closure.Blocks {
+		for _, in := range b.Instrs {
+			if sd, ok := in.(*ssa.Send); ok && kit.IsFieldLoad(sd.Chan, doneF) && !kit.IsNilConst(sd.X) {
+				answered = true
+			}
+		}
+	}
+	c.R.Check(answered, r, "ProcessorNode.Run: a request still pending at exit is answered with an error", c.Pos(closure.Pos()), "p.done <- err", "the deferred function of Run does not answer the request that is still pending when Run returns: its Reconfigure caller waits for ever", true)
+	// Reconfigure stages only on a node that is not stopped
+	g := kit.NewGates()
+	for _, l := range kit.FieldLoads(rec, flag) {
+		g.AddEdges(kit.CondEdges(l, false), "!n."+flag.Name())
+	}
+	c.Dominated(r, "Reconfigure: a request is staged only on a node whose Run is alive", storesToField(rec, pendF, func(v ssa.Value) bool { return !kit.IsNilConst(v) }), g, "the !n."+flag.Name()+" edge")
+}
+
+// c16R12: F32. applyInPlace commits the desired configuration BEFORE it swaps the nodes. Whenever it does not end
+// with every change applied in place it must have put the old configuration back — also on the "not live
+// reconfigurable, fall back to a restart" arm: the fallback's StopAndWait can fail before anything was stopped, and
+// then the pipeline keeps running the old processors while the store holds the new configuration (and a re-plan is
+// empty, so a retry is a no-op).
+func c16R12(c *Ctx) {
+	r := c.R.Rule("R12", "K4 an in-place apply that is not completed is undone: behind the success edge of the commit import in applyInPlace every return other than `true, nil` lies behind a rollbackInPlace call", 2)
+	fn := c.SSA(r, pProv, "(*Service).applyInPlace")
+	ti := c.Fn(r, pProv, "(*Service).transactionalImport")
+	rb := c.Fn(r, pProv, "(*Service).rollbackInPlace")
+	if fn == nil || ti == nil || rb == nil {
+		return
+	}
+	g := kit.NewGates()
+	for _, call := range kit.CallsTo(fn, Set(rb)) {
+		g.AddInstr(call, "rollbackInPlace")
+	}
+	n := 0
+	for _, commit := range kit.CallsTo(fn, Set(ti)) {
+		for _, e := range kit.OKEdges(commit) {
+			for _, ret := range kit.Returns(fn) {
+				if !(ret.Block() == e.To || e.To.Dominates(ret.Block())) {
+					continue
+				}
+				if kit.IsBoolConst(kit.RetVal(ret, 0), true) {
+					continue
+				}
+				n++
+				ok, path := kit.MustPass(ret, g)
+				_ = path
+				// only paths behind the commit count: the return is dominated by the success edge, so a path that
+				// avoids every rollback call inside that region is a real one
+				c.R.Check(ok, r, "applyInPlace: a return that did not apply everything has rolled back", c.Pos(posOf(ret)), "behind rollbackInPlace", "applyInPlace returns without having applied every change in place and without rolling back (e.g. the ErrProcessorNotLiveReconfigurable arm that falls back to a restart): the desired config stays committed while the pipeline runs the old processors; if the restart fallback then fails before stopping anything (StopAndWait error) the failed apply has changed the stored configuration, and Plan is empty so a retry does nothing", true)
+			}
+		}
+	}
+	c.R.Check(n >= 1, r, "applyInPlace: incomplete returns behind the commit", c.Pos(fn.Pos()), "found", "no return other than `true, nil` found behind the commit import", true)
 }
